@@ -1045,6 +1045,12 @@ pub fn run_op<'c>(ctx: &'c Ctx<'c>, me: usize, st: &mut ActorState<'c>, opi: usi
                         }
                     }
                     let (r, m) = measured_full(false, true, true, || TimeZone::from_tz_data(&bytes));
+                    if let Some((k, n, what)) = &m.ambient {
+                        harness(|| push_violation(armed, "C15.ambient_read", &crate::seam::KINDS[*k].replace(' ', "-"), format!("decoding asked the operating system for the {} {n} time(s) (last: {what:?})", crate::seam::KINDS[*k])));
+                    }
+                    if CLOCK_READS.with(|c| !c.borrow().is_empty()) {
+                        harness(|| push_violation(armed, "C15.ambient_read", "clock-read-by-an-operation-that-is-given-its-instant", "decoding read the (simulated) system clock".into()));
+                    }
                     if let Some((off, old, new)) = m.static_write {
                         push_violation(armed, "C15.static_write", "static-data-written", format!("decoding changed process-global state ({}: {old:#04x} -> {new:#04x})", crate::statics::describe(off)));
                     }
